@@ -10,6 +10,7 @@ import gen
 from common import Outcome, np, rng_for
 
 LEVEL = "proof"
+SHRINK_KEYS = ("stream",)
 EXPLANATION = ("Theorems (Lean, reals): closed-form sufficient statistics, forward recursion, equality with the sum over all changepoint configurations, "
                "row normalisation, MAP rule, predictions as posterior-weighted mixtures. This run recomputes the posterior in linear space "
                "non-incrementally (and by enumerating every changepoint configuration for short streams) and compares every row, the predictions and the verdict.")
